@@ -473,10 +473,14 @@ Proof.
     destruct (f_chan c); auto; destruct (f_site c); auto; discriminate.
 Qed.
 
-Definition lab_ok (d : list Z) (l : label) : bool :=
+(* a packet handed to Traffic is written later by a loop *)
+Definition traffic_writes (c : cfg) : bool :=
+  match f_site c with SendOnTraffic => f_recv_emits c | _ => false end.
+
+Definition lab_ok (c : cfg) (d : list Z) (l : label) : bool :=
   match l with
   | Call _ (OUnbind x) => 0 <=? x
-  | Call _ (OTraffic x) => negb (zmem x d)
+  | Call _ (OTraffic x) => negb (traffic_writes c) || negb (zmem x d)
   | _ => true
   end.
 
@@ -484,7 +488,7 @@ Lemma unbind_safe_unbind c : unbind_safe c = true -> f_table c = TPerSsrc -> f_u
 Proof. unfold unbind_safe. intros H HT. rewrite HT in H. auto. Qed.
 
 Lemma step_uinv c : unbind_safe c = true -> park_free c = true ->
-  forall s l s', UInv c s -> lab_ok (dead s) l = true -> step c s l = Some s' -> UInv c s'.
+  forall s l s', UInv c s -> lab_ok c (dead s) l = true -> step c s l = Some s' -> UInv c s'.
 Proof.
   intros HS PF s l s' I LO H.
   destruct l as [t o|t|i|i|i|i]; cbn [step] in H.
@@ -515,11 +519,12 @@ Proof.
         intros [j [|p]]; cbn; auto. apply pend_ok_flag.
       * intros R. apply pend_ok_flag; auto.
     + (* Traffic x *)
-      cbn [lab_ok] in LO. apply negb_true_iff in LO.
+      cbn [lab_ok] in LO. unfold traffic_writes in LO.
       assert (I' : UInv c (set_table s (tbump (key c x) (table s)))).
       { destruct I as [I1 I2 I3 I4 I5 I6]. constructor; cbn; auto.
         intros HT. apply ainv_bump. apply I1; auto. }
-      destruct (f_site c) eqn:FS; auto. apply sop_uinv; auto. congruence.
+      destruct (f_site c) eqn:FS; auto. apply sop_uinv; auto; [congruence|].
+      intros R. rewrite R in LO. cbn in LO. apply negb_true_iff in LO. exact LO.
     + (* Close *)
       destruct I as [I1 I2 I3 I4 I5 I6].
       destruct (match f_close c with CloseIdem => false | CloseRaw => closed s end); [constructor; auto|].
@@ -562,19 +567,20 @@ Proof.
 Qed.
 
 (* the usage discipline of a trace: SSRCs passed to Unbind are not negative (the model uses -1 for the
-   transport-wide report of an interceptor without a per-stream table), and traffic flows only on streams
-   that are not unbound; [d] is the dead list of the state the trace starts in *)
-Fixpoint ops_ok (d : list Z) (tr : list label) : bool :=
+   transport-wide report of an interceptor without a per-stream table), and - for an interceptor whose loop
+   writes the packets handed to it - traffic flows only on streams that are not unbound; [d] is the dead
+   list of the state the trace starts in *)
+Fixpoint ops_ok (c : cfg) (d : list Z) (tr : list label) : bool :=
   match tr with
   | [] => true
-  | Call t (OBind x) :: tl => ops_ok (zremove x d) tl
-  | Call t (OUnbind x) :: tl => (0 <=? x) && ops_ok (x :: zremove x d) tl
-  | Call t (OTraffic x) :: tl => negb (zmem x d) && ops_ok d tl
-  | _ :: tl => ops_ok d tl
+  | Call t (OBind x) :: tl => ops_ok c (zremove x d) tl
+  | Call t (OUnbind x) :: tl => (0 <=? x) && ops_ok c (x :: zremove x d) tl
+  | Call t (OTraffic x) :: tl => (negb (traffic_writes c) || negb (zmem x d)) && ops_ok c d tl
+  | _ :: tl => ops_ok c d tl
   end.
 
 Lemma run_uinv c : unbind_safe c = true -> park_free c = true ->
-  forall tr s s', UInv c s -> ops_ok (dead s) tr = true -> run c s tr = Some s' -> UInv c s'.
+  forall tr s s', UInv c s -> ops_ok c (dead s) tr = true -> run c s tr = Some s' -> UInv c s'.
 Proof.
   intros HS PF tr; induction tr as [|l tl IH]; intros s s' I OK HR; cbn [run] in HR.
   - inversion HR; subst; auto.
@@ -599,7 +605,7 @@ Qed.
    Without [ops_ok]: pacing_cfg, trace Unbind 5; Traffic 5; LRecv 0; LEmit 0 (or Unbind (-1); LTick; LEmit for
    any interceptor without a per-stream table).  Without [park_free]: a caller parked in the send of Bind x /
    Traffic x is overtaken by Unbind x and its packet is written afterwards. *)
-Lemma unbind_stops c tr s : unbind_safe c = true -> park_free c = true -> ops_ok [] tr = true ->
+Lemma unbind_stops c tr s : unbind_safe c = true -> park_free c = true -> ops_ok c [] tr = true ->
   run c (init c) tr = Some s -> late_unbind s = [].
 Proof.
   intros HS PF OK HR. eapply u_late. eapply (run_uinv c HS PF tr (init c) s); auto. apply uinv_init.
@@ -619,6 +625,250 @@ Lemma unbind_stops_needs_ops_ok : exists tr s,
 Proof.
   exists [Call 0 (OUnbind 5); Call 0 (OTraffic 5); LRecv 0; LEmit 0].
   eexists. split; [reflexivity|]. split; [vm_compute; reflexivity|]. cbn. discriminate.
+Qed.
+
+(* -1 is the model's SSRC of the transport-wide report: Unbind (-1) must be excluded *)
+Lemma unbind_stops_needs_nonneg : exists tr s,
+  safe_cfg twcc_sender_cfg = true /\ run twcc_sender_cfg (init twcc_sender_cfg) tr = Some s /\ late_unbind s <> [].
+Proof.
+  exists [Call 0 OBindW; Call 0 (OUnbind (-1)); LTick 1; LEmit 1].
+  eexists. split; [reflexivity|]. split; [vm_compute; reflexivity|]. cbn. discriminate.
+Qed.
+
+(* safe_cfg alone does not give unbind_stops either: a feature record that passes safe_cfg but whose Bind can
+   park on the hand-off channel (not one of the interceptors) *)
+Definition parking_bind_cfg := mkCfg LoopOnBindW true ChUnbufSel SendOnBind true CloseIdem TPerSsrc true true false.
+Lemma unbind_stops_needs_park_free : exists tr s,
+  safe_cfg parking_bind_cfg = true /\ ops_ok parking_bind_cfg [] tr = true /\
+  run parking_bind_cfg (init parking_bind_cfg) tr = Some s /\ late_unbind s <> [].
+Proof.
+  exists [Call 0 OBindW; Call 0 (OBind 1); Call 1 (OBind 2); Call 2 (OUnbind 2); LEmit 1; Resume 1; LEmit 1].
+  eexists. split; [reflexivity|]. split; [reflexivity|]. split; [vm_compute; reflexivity|]. cbn. discriminate.
+Qed.
+
+(* ================= no_stranded ================= *)
+Definition lst_ne (l : lstate) : Prop := l <> LWrite [].
+
+Definition WInv (s : st) : Prop :=
+  (forall t, bfind t (blocked s) = Some WWg -> closed s = true) /\ lall lst_ne (loops s).
+
+Lemma norm_ne p : lst_ne (norm p).
+Proof. destruct p; discriminate. Qed.
+
+Lemma norm_ex l : lst_ne l -> exists p, l = norm p.
+Proof.
+  destruct l as [|[|e p]]; intros H.
+  - exists []; auto.
+  - contradiction H; auto.
+  - exists (e :: p); auto.
+Qed.
+
+Lemma do_send_winv c s x s' : WInv s -> do_send c s x = Some s' -> WInv s'.
+Proof.
+  intros [I1 I2] E. dsend E; split; cbn; auto. apply lall_lset; auto. discriminate.
+Qed.
+
+Lemma sop_winv c s t x b : WInv s -> WInv (send_or_park c s t x b).
+Proof.
+  intros I. unfold send_or_park. destruct (do_send c s x) eqn:E; [eapply do_send_winv; eauto|].
+  destruct I as [I1 I2]. split; cbn; auto. intros u. destruct (Nat.eqb t u); [discriminate|apply I1].
+Qed.
+
+Lemma step_winv c s l s' : WInv s -> step c s l = Some s' -> WInv s'.
+Proof.
+  intros I H. destruct l as [t o|t|i|i|i|i]; cbn [step] in H.
+  - destruct (bfind t (blocked s)) eqn:Bt; [discriminate|]. inversion H; subst; clear H.
+    destruct o; cbn [call].
+    + destruct (f_loop c); auto. destruct (closed s) eqn:EC; auto.
+      destruct I as [I1 I2]. split; cbn; [rewrite <- EC; auto|].
+      apply lall_app; auto. constructor; [discriminate|constructor].
+    + auto.
+    + destruct (f_site c); auto. apply sop_winv. exact I.
+    + destruct I as [I1 I2]. split; cbn; auto.
+      unfold lall in *. apply Forall_map. eapply Forall_impl; [|exact I2].
+      intros [j [|[|e p]]]; cbn; unfold lst_ne; auto; discriminate.
+    + destruct (f_site c); auto. apply sop_winv. exact I.
+    + destruct I as [I1 I2].
+      destruct (match f_close c with CloseIdem => false | CloseRaw => closed s end); [split; cbn; auto|].
+      destruct (_ && _); split; cbn; auto.
+  - unfold resume in H. destruct (bfind t (blocked s)) as [[x b|]|] eqn:Bt; [| |discriminate].
+    + destruct (do_send _ _ _) eqn:E; inversion H; subst; clear H.
+      eapply do_send_winv; [|exact E]. destruct I as [I1 I2]. split; cbn; auto.
+      intros u Hu. apply bfind_bdel_some in Hu. eauto.
+    + destruct (loops s) eqn:EL; inversion H; subst; clear H.
+      destruct I as [I1 I2]. split; cbn; [|constructor].
+      intros u Hu. apply bfind_bdel_some in Hu. eauto.
+  - destruct (lfind i (loops s)) as [[|p]|] eqn:EL; inversion H; subst; clear H.
+    destruct I as [I1 I2]. split; cbn; auto. apply lall_lset; auto. apply norm_ne.
+  - destruct (lfind i (loops s)) as [[|[|[x fl] rest]]|] eqn:EL; inversion H; subst; clear H.
+    destruct I as [I1 I2]. split; cbn; auto. apply lall_lset; auto. apply norm_ne.
+  - destruct (lfind i (loops s)) as [[|p]|] eqn:EL; try discriminate.
+    destruct (chanq s) as [|e q] eqn:EQ; inversion H; subst; clear H.
+    destruct I as [I1 I2]. split; cbn; auto.
+    destruct (f_recv_emits c); auto. apply lall_lset; auto. discriminate.
+  - destruct (lfind i (loops s)) as [[|p]|] eqn:EL; try discriminate.
+    destruct (closed s) eqn:EC; inversion H; subst; clear H.
+    destruct I as [I1 I2]. split; cbn; auto. apply lall_ldel; auto.
+Qed.
+
+Lemma winv_init c : WInv (init c).
+Proof. split; cbn; [discriminate|]. destruct (f_loop c); repeat constructor; discriminate. Qed.
+
+(* after the close channel is closed the head loop can finish what it writes and exit *)
+Lemma drain_head c j tl : forall p s, closed s = true -> loops s = (j, norm p) :: tl ->
+  exists cont s', run c s cont = Some s' /\ loops s' = tl /\ blocked s' = blocked s /\ closed s' = true.
+Proof.
+  induction p as [|[x fl] rest IH]; intros s HC HL.
+  - exists [LExit j]. eexists. cbn [run step]. rewrite HL. cbn [norm lfind]. rewrite Nat.eqb_refl, HC.
+    split; [reflexivity|]. cbn. rewrite Nat.eqb_refl. auto.
+  - destruct (IH (emit s j x fl rest)) as (cont & s' & R & L & B & C).
+    + exact HC.
+    + cbn. rewrite HL. cbn. rewrite Nat.eqb_refl. reflexivity.
+    + exists (LEmit j :: cont), s'. cbn [run step]. rewrite HL. cbn [norm lfind]. rewrite Nat.eqb_refl.
+      split; [exact R|]. auto.
+Qed.
+
+Lemma drain_all c : forall ls s, loops s = ls -> closed s = true -> lall lst_ne ls ->
+  exists cont s', run c s cont = Some s' /\ loops s' = [] /\ blocked s' = blocked s /\ closed s' = true.
+Proof.
+  induction ls as [|[j l] tl IH]; intros s HL HC HA.
+  - exists [], s. cbn. auto.
+  - inversion HA as [|? ? H1 H2]; subst. cbn in H1. destruct (norm_ex l H1) as [p ->].
+    destruct (drain_head c j tl p s HC HL) as (c1 & s1 & R1 & L1 & B1 & C1).
+    destruct (IH s1 L1 C1 H2) as (c2 & s2 & R2 & L2 & B2 & C2).
+    exists (c1 ++ c2), s2. rewrite run_app, R1. repeat split; auto. congruence.
+Qed.
+
+Lemma do_send_blocked c s x s' : do_send c s x = Some s' -> blocked s' = blocked s.
+Proof. intros E; dsend E; auto. Qed.
+
+Lemma do_send_closed_some c s x : chan_safe c = true -> closed s = true -> exists s', do_send c s x = Some s'.
+Proof.
+  unfold chan_safe, do_send. intros HS HC. destruct (f_chan c); try discriminate; eauto.
+  - destruct (first_idle (loops s)); eauto. rewrite HC; eauto.
+  - rewrite HC; eauto.
+Qed.
+
+Lemma resume_send_closed c s t x b : chan_safe c = true -> closed s = true ->
+  bfind t (blocked s) = Some (WSend x b) ->
+  exists s', step c s (Resume t) = Some s' /\ bfind t (blocked s') = None.
+Proof.
+  intros HS HC Bt. cbn [step]. unfold resume. rewrite Bt.
+  destruct (do_send_closed_some c (set_blocked s (bdel t (blocked s))) x HS HC) as [s' E].
+  rewrite E. exists s'. split; auto. apply do_send_blocked in E. rewrite E. cbn.
+  rewrite bfind_bdel, Nat.eqb_refl. reflexivity.
+Qed.
+
+Lemma bfind_fresh b : exists n, forall t, (n <= t)%nat -> bfind t b = None.
+Proof.
+  induction b as [|[u w] b [n IH]].
+  - exists 0%nat. auto.
+  - exists (Nat.max n (S u)). intros t Ht. cbn [bfind].
+    destruct (Nat.eqb_spec u t); [lia|]. apply IH. lia.
+Qed.
+
+Lemma close_call c s t' t w : bfind t' (blocked s) = None -> bfind t (blocked s) = Some w ->
+  closed (call c s t' OClose) = true /\ bfind t (blocked (call c s t' OClose)) = Some w.
+Proof.
+  intros N Bt. cbn [call].
+  destruct (match f_close c with CloseIdem => false | CloseRaw => closed s end); [cbn; auto|].
+  destruct (_ && _); cbn; auto. split; auto.
+  destruct (Nat.eqb_spec t' t); [subst; congruence|auto].
+Qed.
+
+(* every parked caller can be released: there is a continuation of the trace after which it has returned *)
+Lemma no_stranded c tr s t w : chan_safe c = true -> run c (init c) tr = Some s ->
+  bfind t (blocked s) = Some w ->
+  exists cont s', run c s cont = Some s' /\ bfind t (blocked s') = None.
+Proof.
+  intros HS HR Bt.
+  assert (I : WInv s) by (exact (run_inv c WInv (step_winv c) tr (init c) s (winv_init c) HR)).
+  destruct I as [I1 I2]. destruct w as [x b|].
+  - destruct (closed s) eqn:HC.
+    + destruct (resume_send_closed c s t x b HS HC Bt) as (s' & E & B).
+      exists [Resume t], s'. cbn [run]. rewrite E. auto.
+    + destruct (bfind_fresh (blocked s)) as [t' F]. specialize (F t' (le_n _)).
+      destruct (close_call c s t' t _ F Bt) as [C1 B1].
+      destruct (resume_send_closed c _ t x b HS C1 B1) as (s' & E & B).
+      exists [Call t' OClose; Resume t], s'. cbn [step] in E. cbn [run step]. rewrite F. cbn [run step]. rewrite E. auto.
+  - pose proof (I1 t Bt) as HC.
+    destruct (drain_all c (loops s) s eq_refl HC I2) as (c1 & s1 & R1 & L1 & B1 & C1).
+    exists (c1 ++ [Resume t]). eexists. rewrite run_app, R1. cbn [run step]. unfold resume.
+    rewrite B1, Bt, L1. split; [reflexivity|]. cbn. rewrite bfind_bdel, Nat.eqb_refl. reflexivity.
+Qed.
+
+(* ================= parked for ever ================= *)
+Definition stuck (c : cfg) (t : nat) (x : Z) (b : bool) (s : st) : Prop :=
+  closed s = true /\ loops s = [] /\ (f_chan c = ChBuf1 -> chanq s <> []) /\
+  bfind t (blocked s) = Some (WSend x b).
+
+Lemma do_send_stuck c s y : f_chan c = ChUnbuf \/ f_chan c = ChBuf1 -> loops s = [] ->
+  (f_chan c = ChBuf1 -> chanq s <> []) -> do_send c s y = None.
+Proof.
+  intros HC HL HQ. unfold do_send. destruct HC as [HC|HC]; rewrite HC.
+  - rewrite HL. reflexivity.
+  - destruct (chanq s); [contradiction HQ; auto|reflexivity].
+Qed.
+
+Lemma sop_stuck c t x b s u y bb : f_chan c = ChUnbuf \/ f_chan c = ChBuf1 -> u <> t ->
+  stuck c t x b s -> stuck c t x b (send_or_park c s u y bb).
+Proof.
+  intros HC N (S1 & S2 & S3 & S4). unfold send_or_park. rewrite do_send_stuck; auto.
+  repeat split; cbn; auto. destruct (Nat.eqb_spec u t); [contradiction|auto].
+Qed.
+
+Lemma stuck_step c t x b : f_chan c = ChUnbuf \/ f_chan c = ChBuf1 ->
+  forall s l s', stuck c t x b s -> step c s l = Some s' -> stuck c t x b s'.
+Proof.
+  intros HC s l s' S H. pose proof S as (S1 & S2 & S3 & S4).
+  destruct l as [u o|u|i|i|i|i]; cbn [step] in H; try (rewrite S2 in H; discriminate).
+  - destruct (bfind u (blocked s)) eqn:Bu; [discriminate|]. inversion H; subst; clear H.
+    assert (N : u <> t) by (intros ->; congruence).
+    destruct o; cbn [call].
+    + rewrite S1. destruct (f_loop c); auto.
+    + auto.
+    + destruct (f_site c); try apply sop_stuck; auto; repeat split; auto.
+    + repeat split; cbn; auto.
+      * rewrite S2; reflexivity.
+      * intros E. apply S3 in E. destruct (chanq s); [contradiction E; auto|discriminate].
+    + destruct (f_site c); try apply sop_stuck; auto; repeat split; auto.
+    + destruct (match f_close c with CloseIdem => false | CloseRaw => closed s end); [repeat split; cbn; auto|].
+      destruct (_ && _); repeat split; cbn; auto.
+      destruct (Nat.eqb_spec u t); [contradiction|auto].
+  - unfold resume in H. destruct (bfind u (blocked s)) as [[y bb|]|] eqn:Bu; [| |discriminate].
+    + rewrite do_send_stuck in H; auto; discriminate.
+    + rewrite S2 in H. inversion H; subst; clear H. repeat split; cbn; auto.
+      rewrite bfind_bdel. destruct (Nat.eqb_spec u t); [subst; congruence|auto].
+Qed.
+
+Lemma stuck_forever c t x b s : f_chan c = ChUnbuf \/ f_chan c = ChBuf1 -> stuck c t x b s ->
+  forall cont s', run c s cont = Some s' -> bfind t (blocked s') <> None.
+Proof.
+  intros HC S cont s' HR.
+  assert (S' : stuck c t x b s') by (exact (run_inv c (stuck c t x b) (stuck_step c t x b HC) cont s s' S HR)).
+  destruct S' as (_ & _ & _ & B). congruence.
+Qed.
+
+(* rfc8888 before its fix: Read after Close parks for ever *)
+Lemma rfc8888_unfixed_stranded : exists tr s t,
+  run rfc8888_unfixed_cfg (init rfc8888_unfixed_cfg) tr = Some s /\ bfind t (blocked s) <> None /\
+  forall cont s', run rfc8888_unfixed_cfg s cont = Some s' -> bfind t (blocked s') <> None.
+Proof.
+  exists [Call 0 OBindW; Call 0 OClose; LExit 1; Resume 0; Call 1 (OTraffic 1)].
+  eexists. exists 1%nat. split; [vm_compute; reflexivity|]. split; [cbn; discriminate|].
+  apply (stuck_forever _ 1%nat 1 false); [left; reflexivity|].
+  repeat split; cbn; auto. discriminate.
+Qed.
+
+(* intervalpli before its fix: second BindRemoteStream after Close parks for ever *)
+Lemma intervalpli_unfixed_stranded : exists tr s t,
+  run intervalpli_unfixed_cfg (init intervalpli_unfixed_cfg) tr = Some s /\ bfind t (blocked s) <> None /\
+  forall cont s', run intervalpli_unfixed_cfg s cont = Some s' -> bfind t (blocked s') <> None.
+Proof.
+  exists [Call 0 OBindW; Call 0 OClose; LExit 1; Resume 0; Call 1 (OBind 1); Call 2 (OBind 2)].
+  eexists. exists 2%nat. split; [vm_compute; reflexivity|]. split; [cbn; discriminate|].
+  apply (stuck_forever _ 2%nat 2 true); [right; reflexivity|].
+  repeat split; cbn; auto. discriminate.
 Qed.
 
 (* ================= instances and refutations (concrete witness traces) ================= *)
